@@ -72,7 +72,7 @@ func DecodeBitmap(img *bitmap.Image) (*QRCode, error) {
 	var result []byte
 	for _, blk := range blocks {
 		data := append(blk.data, blk.correction...)
-		if err := reedsolomon.Decode(data, 2); err != nil {
+		if err := reedsolomon.Decode(data, len(blk.correction)); err != nil {
 			return nil, err
 		}
 		result = append(result, data[:len(blk.data)]...)
